@@ -356,6 +356,44 @@ def seq_value(path: Path, symt: Optional[Term], outer: Sequence[Path] = ()) -> O
         return None
     if symt[0] == "comp":
         return normalise(strip_ver(symt))
+    # x = []; for ...: [if c:] x = x + E   (the value after the loop is the loop's out-symbol of x)
+    if symt[0] == "sym" and symt[1].startswith("ψ"):
+        for cand in [path] + list(outer):
+            for l in [e for e in cand.events if e.kind == "loop" and e.loopkind == "for" and e.iter is not None]:
+                names = [n for n, o in l.out.items() if o == symt]
+                if not names:
+                    continue
+                n0 = names[0]
+                init = l.init.get(n0)
+                ilit = alloc_literal(cand, init) if init is not None else None
+                if not (init == ("list", ()) or (ilit is not None and ilit[0] == "list" and len(ilit[1]) == 0)):
+                    return None
+                ph = l.phi[n0]
+                pieces = []
+                for bp in l.paths:
+                    if bp.exit[0] == "raise":
+                        continue
+                    v = bp.env.get(n0)
+                    if v is None or v == ph:
+                        continue
+                    if v[0] == "bin" and v[1] == "+" and v[2] == ph and not list(il for il in bp.events if il.kind == "loop"):
+                        conds = tuple((strip_ver(c) if pol else ("not", strip_ver(c))) for c, pol, _ in bp.conds)
+                        pieces.append((strip_ver(v[3]), conds))
+                    else:
+                        return None
+                if len(pieces) != 1:
+                    return None
+                E, conds = pieces[0]
+                comp = ("comp", "seq", ("bound", "_flat"), ((tuple(l.target), strip_ver(l.iter), conds), (("_flat",), E, ())))
+
+                def bind0(t: Term) -> Term:
+                    if t[0] == "sym" and "∈" in t[1]:
+                        return ("bound", t[1].split("∈")[0])
+                    from .terms import map_children
+
+                    return map_children(t, bind0)
+
+                return normalise(bind0(comp))
     lit = None
     home = path
     for cand in [path] + list(outer):
